@@ -73,6 +73,7 @@ func tyByName(s string) reflect.Type {
 type injCase struct {
 	Scopes int      `json:"scopes"` // 1..3, scope 0 outermost, the last one is the nearest
 	Regs   []injReg `json:"registrations"`
+	Later  []injReg `json:"later_registrations,omitempty"` // applied after the first invocation; then the handler is invoked again
 	Params []string `json:"params"`          // parameter types of the handler
 	Fast   string   `json:"fast,omitempty"`  // name of a hand-written FastInvoker wrapper with exactly these parameters
 	Apply  bool     `json:"apply,omitempty"` // Apply to a struct with tagged fields instead of Invoke
@@ -223,6 +224,27 @@ func genInjCase(rng *rand.Rand) *injCase {
 	default:
 		for k := rng.Intn(5); k > 0; k-- {
 			c.Params = append(c.Params, tyName(pickParam(rng, c.Regs)))
+		}
+	}
+	if !c.Apply && len(c.Regs) > 0 && rng.Intn(2) == 0 {
+		// a history: resolve once, register more (mostly re-registrations of what exists), resolve again
+		for k := 1 + rng.Intn(3); k > 0; k-- {
+			prev := c.Regs[rng.Intn(len(c.Regs))]
+			key := tyByName(prev.Key)
+			scope := prev.Scope
+			if rng.Intn(4) == 0 {
+				key = c04Tys[rng.Intn(len(c04Tys))]
+				scope = rng.Intn(c.Scopes)
+			}
+			impls := implsFor(key)
+			n++
+			via := "Set"
+			if key.Kind() == reflect.Interface && rng.Intn(2) == 0 {
+				via = "MapTo"
+			} else if key.Kind() != reflect.Interface && key != tyRCh && rng.Intn(2) == 0 {
+				via = "Map"
+			}
+			c.Later = append(c.Later, injReg{Scope: scope, Key: tyName(key), Impl: tyName(impls[rng.Intn(len(impls))]), Via: via, Tag: fmt.Sprintf("v%d", n)})
 		}
 	}
 	if c.Apply {
@@ -655,6 +677,37 @@ func judgeInj(w *core.W, c *injCase) {
 			return
 		}
 	}
+	if len(c.Later) > 0 {
+		for _, rg := range c.Later {
+			applyReg(scopes[rg.Scope], rg, chans)
+			tbl[rg.Scope][tyByName(rg.Key)] = rg.Tag
+		}
+		accept2 := make([][]string, len(params))
+		for i := range params {
+			accept2[i], _, _ = resolve(tbl, params[i])
+		}
+		var o2 injObs
+		fn2 := reflect.MakeFunc(reflect.FuncOf(params, []reflect.Type{tInt, tString}, false), func(args []reflect.Value) []reflect.Value {
+			o2.ran++
+			for _, a := range args {
+				o2.tags = append(o2.tags, tagOfValue(a, chans))
+			}
+			return []reflect.Value{reflect.ValueOf(42), reflect.ValueOf("res")}
+		})
+		func() {
+			defer func() { o2.pan = recover() }()
+			o2.ret, o2.err = nearest.Invoke(fn2.Interface())
+		}()
+		w.Count("second-invocation-after-more-registrations")
+		if fmt.Sprint(accept2) != fmt.Sprint(accept) {
+			w.Count("nt:later-registration-changes-the-resolution")
+			nt = true
+		}
+		if msg := injVerdict(params, accept2, o2); msg != "" {
+			w.Violate("inject", c, "[second invocation, after the later registrations] "+msg)
+			return
+		}
+	}
 	if nt {
 		b, _ := json.Marshal(c)
 		w.NonTrivial(core.Hash64(string(b)), func() interface{} { return map[string]interface{}{"case": c, "acceptable": accept, "received": o.tags} })
@@ -875,7 +928,7 @@ func runC04(r *core.Run) {
 		judgeFlameInj(w, c)
 	})
 	r.Gate("distinct_nontrivial", r.NonTrivialCount(), 5000)
-	for _, k := range []string{"nt:candidates-in>=2-scopes", "nt:exact-and-implementor", "nt:unresolvable", "nt:re-registered", "invocations:fast", "invocations:reflective", "apply", "apply-unresolved", "flame-requests", "nt:request-shadows-application", "wrapping:context", "wrapping:http", "wrapping:handlerfunc", "wrapping:teapot", "wrapping:logger", "several-implementors-in-scope(any accepted)"} {
+	for _, k := range []string{"nt:candidates-in>=2-scopes", "nt:exact-and-implementor", "nt:unresolvable", "nt:re-registered", "invocations:fast", "invocations:reflective", "apply", "apply-unresolved", "flame-requests", "nt:request-shadows-application", "wrapping:context", "wrapping:http", "wrapping:handlerfunc", "wrapping:teapot", "wrapping:logger", "several-implementors-in-scope(any accepted)", "second-invocation-after-more-registrations", "nt:later-registration-changes-the-resolution"} {
 		r.GateCounter(k, 100)
 	}
 }
